@@ -69,7 +69,71 @@ fn gen_marked(rng: &mut Rng) -> (String, Vec<(u32, u32)>) {
         push_mark(&mut lines, 4, &["a", "b", "c"]);
         let nb = 1 + rng.usize(4);
         for _ in 0..nb {
-            match rng.below(8) {
+            match rng.below(15) {
+                8 => {
+                    // a loop left by break, the loop variable read after the loop
+                    lines.push("    for i2 in range(4):".to_owned());
+                    lines.push("        if i2 == c % 3:".to_owned());
+                    lines.push("            break".to_owned());
+                    push_mark(&mut lines, 8, &["i2"]);
+                    push_mark(&mut lines, 4, &["i2", "c"]);
+                }
+                9 => {
+                    // augmented assignments (item, plain) and unpacking
+                    lines.push("    ys = [a, b]".to_owned());
+                    lines.push("    ys[0] += c".to_owned());
+                    lines.push("    p1, (p2, p3) = ys[0], (b, c)".to_owned());
+                    push_mark(&mut lines, 4, &["p1", "p2", "p3"]);
+                    lines.push("    c += p1".to_owned());
+                    push_mark(&mut lines, 4, &["c"]);
+                }
+                10 => {
+                    // a local captured by a nested def and re-assigned afterwards
+                    lines.push("    cap = c".to_owned());
+                    lines.push("    def rd():".to_owned());
+                    lines.push("        return cap".to_owned());
+                    lines.push("    cap = cap + 1".to_owned());
+                    push_mark(&mut lines, 4, &["cap"]);
+                    lines.push("    c = rd() + cap".to_owned());
+                    push_mark(&mut lines, 4, &["c", "cap"]);
+                }
+                11 => {
+                    // if / elif / else chain, return without a value in a helper
+                    lines.push("    def nothing(z):".to_owned());
+                    lines.push("        if z > 1000000:".to_owned());
+                    lines.push("            return".to_owned());
+                    push_mark(&mut lines, 8, &["z"]);
+                    lines.push("    nothing(c)".to_owned());
+                    lines.push("    if c % 3 == 0:".to_owned());
+                    push_mark(&mut lines, 8, &["c"]);
+                    lines.push("    elif c % 3 == 1:".to_owned());
+                    push_mark(&mut lines, 8, &["a"]);
+                    lines.push("    else:".to_owned());
+                    lines.push("        pass".to_owned());
+                    push_mark(&mut lines, 8, &["b"]);
+                }
+                12 => {
+                    // comprehension with a condition and a nested clause, its variables do not leak
+                    lines.push("    k = c".to_owned());
+                    lines.push("    zs = [k + m for k in range(3) if k != 1 for m in range(2)]".to_owned());
+                    push_mark(&mut lines, 4, &["k"]);
+                    lines.push("    c = c + len(zs)".to_owned());
+                }
+                13 => {
+                    // a call through a lambda and through a native callback
+                    lines.push("    lam = lambda v: v + a".to_owned());
+                    lines.push("    c = lam(c) + list(map(lam, [b]))[0]".to_owned());
+                    push_mark(&mut lines, 4, &["c"]);
+                }
+                14 => {
+                    // nested loops with continue in the inner one
+                    lines.push("    for o1 in range(2):".to_owned());
+                    lines.push("        for o2 in range(2):".to_owned());
+                    lines.push("            if o2 == o1:".to_owned());
+                    lines.push("                continue".to_owned());
+                    push_mark(&mut lines, 12, &["o1", "o2"]);
+                    push_mark(&mut lines, 8, &["o1"]);
+                }
                 0 => {
                     lines.push(format!("    for i in range({}):", 1 + rng.below(3)));
                     lines.push("        d = c * i".to_owned());
